@@ -59,6 +59,10 @@ def run_scenario(scn: dict, *, maxbuf: int = 0, ns: int = 1, nr: int = 1, wrap: 
         if act["c"] == "erecv":
             recv_nowait(0, 1)
             return True
+        if act["c"] == "eclose":
+            st["S"][1].close()
+            b.rec.emit(ev="close", side="S", h=1, nh=0, res="ok", **obs())
+            return True
         if act["c"] in ("cancel", "native"):
             t = act["t"]
             if t in b.tasks and b.tasks[t].done():
